@@ -417,8 +417,20 @@ class Origins:
                 if c and c.get('path') == body.path:
                     targets = [body.path]
                 elif not c and t.get('fop') is not None:
-                    # fn-pointer call: targets from the call graph
-                    targets = [y for (y, kind) in self.cg.edges.get(caller.path, ()) if y == body.path and kind != 'direct']
+                    # fn-pointer call: the function the pointer is known to be (a helper `run(parser)` spliced in), else the
+                    # targets from the call graph
+                    fe = caller.expr(t['fop'])
+                    for _ in range(8):
+                        if fe[0] in ('ref', 'deref'):
+                            fe = fe[1]
+                        elif fe[0] == 'cast':
+                            fe = fe[3]
+                        else:
+                            break
+                    if fe[0] == 'fnitem':
+                        targets = [fe[1]] if fe[1] == body.path else []
+                    else:
+                        targets = [y for (y, kind) in self.cg.edges.get(caller.path, ()) if y == body.path and kind != 'direct']
                 if body.path not in targets:
                     continue
                 if idx - 1 < len(t['args']):
